@@ -13,8 +13,10 @@ import (
 	"math/rand"
 	"os"
 	"path/filepath"
+	"runtime/debug"
 	"sort"
 	"strings"
+	"time"
 )
 
 // Config is the parsed command line shared by all harnesses.
@@ -87,6 +89,10 @@ type Writer struct {
 	Extra     map[string]any
 	sampleMod int
 	offsets   []int
+	crashes   []map[string]any
+	// Aborted is set once a case hung: the leaked goroutine may spin, so the
+	// harness should stop generating cases.
+	Aborted bool
 }
 
 // NewWriter creates a shard writer. header is the Coq preamble (Require
@@ -174,6 +180,42 @@ func (w *Writer) Add(c Case) {
 	}
 }
 
+// Guard runs one case of the implementation under a watchdog. A panic or a
+// hang (no return within the limit) of the code under test is itself a failing
+// input: it is recorded in meta.json under "crashes" with the replay form of
+// the case, and the check reports it as a violation. Guard returns false in
+// that case; after a hang the caller should stop (w.Aborted is set).
+func (w *Writer) Guard(replay any, limit time.Duration, f func()) bool {
+	done := make(chan string, 1)
+	go func() {
+		defer func() {
+			if r := recover(); r != nil {
+				done <- fmt.Sprintf("panic: %v\n%s", r, debug.Stack())
+				return
+			}
+			done <- ""
+		}()
+		f()
+	}()
+	select {
+	case msg := <-done:
+		if msg == "" {
+			return true
+		}
+		if len(msg) > 1500 {
+			msg = msg[:1500]
+		}
+		if len(w.crashes) < 20 {
+			w.crashes = append(w.crashes, map[string]any{"kind": "panic", "detail": msg, "case": replay})
+		}
+		return false
+	case <-time.After(limit):
+		w.crashes = append(w.crashes, map[string]any{"kind": "hang", "detail": fmt.Sprintf("no return within %v", limit), "case": replay})
+		w.Aborted = true
+		return false
+	}
+}
+
 // Total returns the number of cases added so far.
 func (w *Writer) Total() int { return w.total }
 
@@ -203,6 +245,7 @@ func (w *Writer) Close() {
 		"shard_offsets":       w.offsets,
 		"seed":                w.cfg.Seed,
 		"tier":                w.cfg.Tier,
+		"crashes":             w.crashes,
 	}
 	for k, v := range w.Extra {
 		meta[k] = v
